@@ -221,3 +221,138 @@ func orEdge(tc *TermCtx, old, g *Term) *Term {
 	}
 	return tc.Or(old, g)
 }
+
+// ---------- CFG-level if-conversion of simple diamonds / triangles ----------
+
+type mergeInfo struct {
+	cond         *Term
+	join         *ssa.BasicBlock
+	predT, predF *ssa.BasicBlock
+}
+
+type armKey struct{ b *ssa.BasicBlock }
+
+// simpleArm: the block has one predecessor, one successor, and only pure, panic-free
+// scalar instructions.
+func (P *Program) simpleArm(b *ssa.BasicBlock) bool {
+	if v, ok := P.finfo.Load(armKey{b}); ok {
+		return v.(bool)
+	}
+	ok := len(b.Preds) == 1 && len(b.Succs) == 1 && len(b.Instrs) <= 12
+	if ok {
+		for _, in := range b.Instrs {
+			if !pureInstr(in) {
+				ok = false
+				break
+			}
+			if _, isIf := in.(*ssa.If); isIf {
+				ok = false
+				break
+			}
+			if _, isRet := in.(*ssa.Return); isRet {
+				ok = false
+				break
+			}
+			if _, isPhi := in.(*ssa.Phi); isPhi {
+				ok = false
+				break
+			}
+		}
+	}
+	P.finfo.Store(armKey{b}, ok)
+	return ok
+}
+
+func pureInstr(in ssa.Instruction) bool {
+	switch x := in.(type) {
+	case *ssa.Phi, *ssa.If, *ssa.Jump, *ssa.Return, *ssa.DebugRef:
+		return true
+	case *ssa.BinOp:
+		if !scalarT(x.X.Type()) {
+			return false
+		}
+		switch x.Op {
+		case token.QUO, token.REM:
+			_, _, fl := typeWidth(x.X.Type())
+			if !fl {
+				c, ok := x.Y.(*ssa.Const)
+				if !ok || c.Value == nil || c.Uint64() == 0 && c.Int64() == 0 {
+					return false
+				}
+			}
+		case token.SHL, token.SHR:
+			_, signed, _ := typeWidth(x.Y.Type())
+			if _, isC := x.Y.(*ssa.Const); signed && !isC {
+				return false
+			}
+		}
+		return true
+	case *ssa.UnOp:
+		return (x.Op == token.SUB || x.Op == token.XOR || x.Op == token.NOT) && scalarT(x.X.Type())
+	case *ssa.Convert:
+		if !scalarT(x.X.Type()) || !scalarT(x.Type()) {
+			return false
+		}
+		_, _, ffl := typeWidth(x.X.Type())
+		_, _, tfl := typeWidth(x.Type())
+		return !(ffl && !tfl)
+	case *ssa.ChangeType:
+		return scalarT(x.X.Type())
+	}
+	return false
+}
+
+// tryIfConvert evaluates both arms of a simple diamond/triangle below block b (whose If
+// has the symbolic condition c) and returns the join block, or nil if not applicable.
+func (ex *Exec) tryIfConvert(fr *Frame, b *ssa.BasicBlock, c *Term) *ssa.BasicBlock {
+	if ex.initMode {
+		return nil
+	}
+	T, F := b.Succs[0], b.Succs[1]
+	var join, predT, predF *ssa.BasicBlock
+	var arms []*ssa.BasicBlock
+	switch {
+	case ex.P.simpleArm(T) && ex.P.simpleArm(F) && T.Succs[0] == F.Succs[0] && T != F:
+		join, predT, predF = T.Succs[0], T, F
+		arms = []*ssa.BasicBlock{T, F}
+	case ex.P.simpleArm(T) && T.Succs[0] == F:
+		join, predT, predF = F, T, b
+		arms = []*ssa.BasicBlock{T}
+	case ex.P.simpleArm(F) && F.Succs[0] == T:
+		join, predT, predF = T, b, F
+		arms = []*ssa.BasicBlock{F}
+	default:
+		return nil
+	}
+	if len(join.Preds) != 2 {
+		return nil
+	}
+	// every phi of the join must be scalar
+	for _, in := range join.Instrs {
+		phi, ok := in.(*ssa.Phi)
+		if !ok {
+			break
+		}
+		if !scalarT(phi.Type()) {
+			return nil
+		}
+	}
+	for _, arm := range arms {
+		for _, in := range arm.Instrs {
+			ex.steps++
+			switch x := in.(type) {
+			case *ssa.BinOp:
+				ex.set(fr, x, ex.binop(x.Op, x.X.Type(), ex.get(fr, x.X), ex.get(fr, x.Y), x.Y.Type()))
+			case *ssa.UnOp:
+				ex.set(fr, x, ex.unop(fr, x))
+			case *ssa.Convert:
+				ex.set(fr, x, ex.convert(x.X.Type(), x.Type(), ex.get(fr, x.X)))
+			case *ssa.ChangeType:
+				ex.set(fr, x, ex.get(fr, x.X))
+			}
+		}
+	}
+	fr.mergePhi = &mergeInfo{cond: c, join: join, predT: predT, predF: predF}
+	fr.prev = predT
+	return join
+}
